@@ -55,17 +55,20 @@ layout with distinct sibling sites, every conforming tree, every operand payload
 `Model/Publish.lean` defines what mirgen publishes for a function (`publishFn`, a port of how `eval_expr` accumulates
 `state_skeleton`; compared with the real compiler's `dsp` skeleton on every generated program by the correspondence stage),
 and the `Visits` / `Covers` / `LNode.Ok` hypotheses above are PROVED for it: `C05_publish_visits`, `C05_publishFn_visits`,
-`C05_publish_ok`, `C05_published_skeleton_same_meaning`, and the corollaries `C05_published_instance_is_flat_call`,
-`C05_published_same_words_same_eval_future`, `C05_published_eval_respects_agreement`, `C05_published_state_effect_is_tree_ops`
-whose only program-side hypotheses are decidable syntactic class predicates (`noStateInArmsN`: no cell — stateful construct
-or named call — inside an `if` arm, in the function and its callees; `SitesUnique` / `SitesOk`: sites of one body distinct,
-ring lengths < 2^64) and `publishFnN n P d = some lay` (callees defined, no recursion).  Outside the class the layout is
-not visited in order: `C05_state_in_arms_not_visited` (finding F3 at model level).
-NOT proved: that the Rust `mirgen` computes `publishFn` (corresponded, not proved); the class does not include calls of
-STATELESS named functions inside `if` arms (the reference semantics gives every named call site a child node, which the arm
-that is not taken never creates; the flat image is the same but the trees differ, and the theorems are stated with equality
-of trees); and that returned values have the word count of their `Feed` cell (`NPayOk`, a typing fact; soundness of the type
-checker is not proved, see C03).
+`C05_publish_ok`, `C05_published_skeleton_same_meaning`, `C05_publish_depth_irrelevant`, and the corollaries
+`C05_published_instance_is_flat_call`, `C05_published_same_words_same_eval_future`, `C05_published_eval_respects_agreement`,
+`C05_published_state_effect_is_tree_ops`, whose only program-side hypotheses are decidable syntactic class predicates
+(`noStateInArmsN`: no cell — stateful construct or named call — inside an `if` arm, in the function and its callees;
+`SitesUnique` / `SitesOk`: sites of one body distinct, ring lengths < 2^64) and `publishFnN n P d = some lay` (callees
+defined, no recursion).  `C05_published_instance_is_flat_call_stateless_arms` proves the main corollary for the WIDER class
+`noStatefulInArmsN` (calls of functions without state allowed inside `if` arms — everything outside finding F3's class; the
+reference semantics creates a stateless child node only when the arm runs, so the statement is about flat images instead
+of trees; `C05_wider_class`: the narrow class is contained).  Outside the class the layout is not visited in order:
+`C05_state_in_arms_not_visited` (finding F3 at model level).
+NOT proved: that the Rust `mirgen` computes `publishFn` (corresponded, not proved); the agreement corollaries
+(`…_same_words_same_eval_future`, `…_eval_respects_agreement`, `…_state_effect_is_tree_ops`) are proved for the narrow class
+only (their `Covers` / tree-equality statements exclude call sites without a cell); and that returned values have the word
+count of their `Feed` cell (`NPayOk`, a typing fact; soundness of the type checker is not proved, see C03).
 -/
 namespace Mimium.Layout
 open Mimium.StateTree
